@@ -88,8 +88,26 @@ class Lookup:
         raise Unsupported(f'lookup.{name}')
 
 
-def csrf_contract(optional):
+def default_next_url(repo):
+    """the default value of csrf_token_required's next_url parameter, as the checked tree spells it (a lambda)"""
+    import ast as _ast
+    import os
+    tree = _ast.parse(open(os.path.join(repo, DEC)).read())
+    fn = next(n for n in tree.body if isinstance(n, _ast.FunctionDef) and n.name == 'csrf_token_required')
+    names = [a.arg for a in fn.args.args]
+    dflt = fn.args.defaults[names.index('next_url') - (len(names) - len(fn.args.defaults))]
+    if not isinstance(dflt, _ast.Lambda):
+        raise Unsupported('csrf_token_required: the default next_url is not a lambda')
+    return Closure(dflt, {})
+
+
+def csrf_contract(optional, real_default=False):
     def env(w):
+        if real_default:
+            # a handler METHOD of a view with URL parameters, decorated without a next_url: the decorator calls its default
+            # with (self, **view_args)
+            return {'service': 'streams', 'optional': optional, 'args': (Obj('View', {}),), 'kwargs': {'mps_name': Opaque('name')},
+                    'next_url': default_next_url(w.get('__repo__', '/repo'))}
         return {'service': 'streams', 'optional': optional, 'args': (), 'kwargs': {},
                 'next_url': lambda *a, **k: Opt(z3.Not(w['has_next_url']), Opaque('url'))}
 
@@ -100,7 +118,8 @@ def csrf_contract(optional):
     found = '(token_in_args or (has_payload and ((is_json and token_in_json) or token_in_form)))'
     runs = f'(({found}) and csrf_ok)' + (f' or not ({found})' if optional else '')
     return Contract(
-        key=f'{DEC}:csrf_token_required.decorator.decorated_function', variant=f'optional={optional}', props=['C15'],
+        key=f'{DEC}:csrf_token_required.decorator.decorated_function',
+        variant=f'optional={optional}' + (',default-next-url,view-arguments' if real_default else ''), props=['C15', 'C16'] if real_default else ['C15'],
         env=env,
         models={'attr:flask.request.method': lambda eng: MethodText(eng.world['has_payload']),
                 'attr:flask.request.is_json': lambda eng: eng.world['is_json'],
@@ -133,7 +152,7 @@ class MethodText:
         raise Unsupported('method text comparison')
 
 
-CSRF = [csrf_contract(False), csrf_contract(True)]
+CSRF = [csrf_contract(False), csrf_contract(True), csrf_contract(False, real_default=True)]
 
 
 # ----------------------------------------------------------------------------- CsrfProtection.check (token algebra)
